@@ -52,7 +52,7 @@ def gen_axis(rng, n, lo, hi):
             return xs
 
 
-def gen_table(rng, z, lo, hi, *, nvi=None, nio=None, vmax=30.0, imax=2.0, shuffle=0.2, const=None):
+def gen_table(rng, z, lo, hi, *, nvi=None, nio=None, vmax=30.0, imax=2.0, shuffle=0.2, const=None, min_step=1e-3):
     """well-conditioned table (the conditioning of property C10)"""
     nvi = nvi if nvi is not None else rng.choice([1, 1, 2, 2, 3, 4, 5, 6])
     nio = nio if nio is not None else rng.randint(2, 8)
@@ -63,6 +63,12 @@ def gen_table(rng, z, lo, hi, *, nvi=None, nio=None, vmax=30.0, imax=2.0, shuffl
         vis = gen_axis(rng, nvi, 0.3 * vmax, vmax)
         if vis[0] == 0.0:
             vis[0] = float("%.4g" % (0.5 * vis[1]))
+    top = max(max(ios), max(vis)) if nvi > 1 else max(ios)
+    if any(b - a < min_step * top for ax in ((ios, vis) if nvi > 1 else (ios,)) for a, b in zip(ax, ax[1:])):
+        # conditioning: axis steps relative to the largest coordinate of the whole table (the property allows 1e-4; steps
+        # between 1e-4 and 1e-3 are the business of a dedicated stream, see c10.gen_fine)
+        return gen_table(rng, z, lo, hi, nvi=nvi, nio=nio, vmax=vmax, imax=imax, shuffle=shuffle, const=const,
+                         min_step=min_step)
     vals = [[(const if const is not None else ud(rng, lo, hi, 4)) for _ in ios] for _ in vis]
     if nvi > 1 and rng.random() < shuffle:
         order = list(range(nvi))
